@@ -1,14 +1,20 @@
 (* The abstract array that a vnadata_t is documented to be (vnadata(3)): a parameter type,
-   dimensions, and total functions for the frequencies, the flattened matrices and the reference
-   impedances in one of two modes.  No allocations, no memory.  The operations are written from
-   the manual page, independently of DataModel:
+   dimensions, total functions for the frequencies, the flattened matrices and the reference
+   impedances in one of two modes, and the save options.  No allocations, no memory, no faults.
+   The operations are written from the manual page, independently of DataModel:
      - resize keeps the flattened prefix common to the old and the new box and presents every
        other cell / frequency / impedance with its initial value (0, 0, 50 ohm);
-     - getters return the stored value for indices in [0,n) and fail otherwise;
-     - the cell setter is a point update.
+     - init = resize to the empty undefined object, all impedances back to ordinary 50 ohm,
+       resize to the requested shape (so that every cell is initial);
+     - getters return the stored values for indices in [0,n) and fail otherwise; setters are
+       point / row / column updates inside the logical box;
+     - the ordinary z0 setters discard per-frequency impedances (everything else back to 50 ohm),
+       the per-frequency setters establish per-frequency mode preserving the ordinary values;
+       get_z0 / get_z0_vector fail in per-frequency mode, get_fz0(_vector) work in both.
    No proofs in this file. *)
 Require Import List ZArith Bool.
 Require Import LV.Data.DataModel.
+Import ListNotations.
 
 Section Spec.
 Variable V : Type.
@@ -16,7 +22,8 @@ Variables vzero vdef : V.
 
 Record arr := mkarr {
   a_ty : vpt; a_rows : nat; a_cols : nat; a_freqs : nat; a_perf : bool;
-  a_fv : nat -> Z; a_dat : nat -> nat -> V; a_z0 : nat -> V; a_fz0 : nat -> nat -> V }.
+  a_fv : nat -> Z; a_dat : nat -> nat -> V; a_z0 : nat -> V; a_fz0 : nat -> nat -> V;
+  a_ftype : Z; a_fmt : option nat; a_fprec : Z; a_dprec : Z }.
 
 Definition a_ports (a : arr) := Nat.max (a_rows a) (a_cols a).
 Definition a_cells (a : arr) := a_rows a * a_cols a.
@@ -27,7 +34,21 @@ Definition arr_eq (a b : arr) : Prop :=
   a_perf a = a_perf b /\
   (forall i, a_fv a i = a_fv b i) /\ (forall i j, a_dat a i j = a_dat b i j) /\
   (a_perf a = false -> forall j, a_z0 a j = a_z0 b j) /\
-  (a_perf a = true -> forall i j, a_fz0 a i j = a_fz0 b i j).
+  (a_perf a = true -> forall i j, a_fz0 a i j = a_fz0 b i j) /\
+  a_ftype a = a_ftype b /\ a_fmt a = a_fmt b /\ a_fprec a = a_fprec b /\ a_dprec a = a_dprec b.
+
+Definition with_fv (a : arr) x := mkarr (a_ty a) (a_rows a) (a_cols a) (a_freqs a) (a_perf a) x
+  (a_dat a) (a_z0 a) (a_fz0 a) (a_ftype a) (a_fmt a) (a_fprec a) (a_dprec a).
+Definition with_dat (a : arr) x := mkarr (a_ty a) (a_rows a) (a_cols a) (a_freqs a) (a_perf a)
+  (a_fv a) x (a_z0 a) (a_fz0 a) (a_ftype a) (a_fmt a) (a_fprec a) (a_dprec a).
+(* ordinary mode with the given vector *)
+Definition with_z0 (a : arr) x := mkarr (a_ty a) (a_rows a) (a_cols a) (a_freqs a) false
+  (a_fv a) (a_dat a) x (a_fz0 a) (a_ftype a) (a_fmt a) (a_fprec a) (a_dprec a).
+(* per-frequency mode with the given rows *)
+Definition with_fz0 (a : arr) x := mkarr (a_ty a) (a_rows a) (a_cols a) (a_freqs a) true
+  (a_fv a) (a_dat a) (a_z0 a) x (a_ftype a) (a_fmt a) (a_fprec a) (a_dprec a).
+Definition with_meta (a : arr) ft fm fp dp := mkarr (a_ty a) (a_rows a) (a_cols a) (a_freqs a)
+  (a_perf a) (a_fv a) (a_dat a) (a_z0 a) (a_fz0 a) ft fm fp dp.
 
 Definition spec_resize (a : arr) (t : vpt) (R C F : nat) : arr :=
   let kf := Nat.min F (a_freqs a) in
@@ -37,33 +58,146 @@ Definition spec_resize (a : arr) (t : vpt) (R C F : nat) : arr :=
         (fun i => if Nat.ltb i kf then a_fv a i else 0%Z)
         (fun i j => if Nat.ltb i kf && Nat.ltb j kc then a_dat a i j else vzero)
         (fun j => if Nat.ltb j kp then a_z0 a j else vdef)
-        (fun i j => if Nat.ltb i kf && Nat.ltb j kp then a_fz0 a i j else vdef).
+        (fun i j => if Nat.ltb i kf && Nat.ltb j kp then a_fz0 a i j else vdef)
+        (a_ftype a) (a_fmt a) (a_fprec a) (a_dprec a).
 
-Definition spec_get_frequency (a : arr) (i : Z) : option Z :=
-  if in_range i (a_freqs a) then Some (a_fv a (Z.to_nat i)) else None.
+Definition sfail (a : arr) : arr * outcome V := (a, fail V).
 
-Definition spec_get_cell (a : arr) (f r c : Z) : option V :=
-  if in_range f (a_freqs a) && in_range r (a_rows a) && in_range c (a_cols a)
-  then Some (a_dat a (Z.to_nat f) (Z.to_nat r * a_cols a + Z.to_nat c)) else None.
+(* when a resize is accepted: valid type code, non-negative dimensions that fit the type, and a
+   cell count that fits an int *)
+Definition resize_cond (tz r c f : Z) : option vpt :=
+  match vpt_of_Z tz with
+  | Some t =>
+    if ((0 <=? r) && (0 <=? c) && (0 <=? f))%Z
+       && validate_type t (Z.to_nat r) (Z.to_nat c)
+       && (Z.of_nat (Z.to_nat r) * Z.of_nat (Z.to_nat c) <=? INT_MAX)%Z
+    then Some t else None
+  | None => None
+  end.
 
-Definition spec_set_cell (a : arr) (f r c : Z) (v : V) : option arr :=
-  if in_range f (a_freqs a) && in_range r (a_rows a) && in_range c (a_cols a)
-  then Some (mkarr (a_ty a) (a_rows a) (a_cols a) (a_freqs a) (a_perf a) (a_fv a)
-               (fun i j => if Nat.eqb i (Z.to_nat f) && Nat.eqb j (Z.to_nat r * a_cols a + Z.to_nat c)
-                           then v else a_dat a i j) (a_z0 a) (a_fz0 a))
-  else None.
+Definition spec_resize_op (a : arr) (tz r c f : Z) : arr * outcome V :=
+  match resize_cond tz r c f with
+  | Some t => (spec_resize a t (Z.to_nat r) (Z.to_nat c) (Z.to_nat f), ok V)
+  | None => sfail a
+  end.
 
-(* vnadata_get_z0 fails when per-frequency impedances are in use *)
-Definition spec_get_z0 (a : arr) (p : Z) : option V :=
-  if in_range p (a_ports a) && negb (a_perf a) then Some (a_z0 a (Z.to_nat p)) else None.
+(* the z0 vector an ordinary setter starts from: the current one, or all 50 ohm when the object
+   was in per-frequency mode *)
+Definition z0_base (a : arr) : nat -> V := if a_perf a then (fun _ => vdef) else a_z0 a.
+(* the rows a per-frequency setter starts from: the current ones, or the ordinary vector at every
+   logical frequency *)
+Definition fz0_base (a : arr) : nat -> nat -> V :=
+  if a_perf a then a_fz0 a else (fun i j => if Nat.ltb i (a_freqs a) then a_z0 a j else vdef).
 
-(* vnadata_get_fz0 works in both modes *)
-Definition spec_get_fz0 (a : arr) (f p : Z) : option V :=
-  if in_range f (a_freqs a) && in_range p (a_ports a)
-  then Some (if a_perf a then a_fz0 a (Z.to_nat f) (Z.to_nat p) else a_z0 a (Z.to_nat p)) else None.
+Definition spec_set_all_z0 (a : arr) (v : V) : arr :=
+  with_z0 a (fun p => if Nat.ltb p (a_ports a) then v else z0_base a p).
+
+Definition spec_init (a : arr) (tz r c f : Z) : arr * outcome V :=
+  let a1 := fst (spec_resize_op a 0 0 0 0) in
+  spec_resize_op (spec_set_all_z0 a1 vdef) tz r c f.
+
+Definition spec_step (a : arr) (o : op V) : arr * outcome V :=
+  match o with
+  | OInit _ t r c f => spec_init a t r c f
+  | OResize _ t r c f => spec_resize_op a t r c f
+  | OSetType _ tz =>
+      match vpt_of_Z tz with
+      | Some t => if validate_type t (a_rows a) (a_cols a)
+                  then (mkarr t (a_rows a) (a_cols a) (a_freqs a) (a_perf a) (a_fv a) (a_dat a) (a_z0 a)
+                              (a_fz0 a) (a_ftype a) (a_fmt a) (a_fprec a) (a_dprec a), ok V)
+                  else sfail a
+      | None => sfail a
+      end
+  | OAddFreq _ x =>
+      if (x <? 0)%Z then sfail a else
+      (mkarr (a_ty a) (a_rows a) (a_cols a) (a_freqs a + 1) (a_perf a)
+             (fun i => if Nat.eqb i (a_freqs a) then x else a_fv a i)
+             (a_dat a) (a_z0 a) (a_fz0 a) (a_ftype a) (a_fmt a) (a_fprec a) (a_dprec a), ok V)
+  | OGetFreq _ i => if in_range i (a_freqs a) then (a, okp V (PFreq (a_fv a (Z.to_nat i)))) else sfail a
+  | OSetFreq _ i x =>
+      if in_range i (a_freqs a)
+      then (with_fv a (fun k => if Nat.eqb k (Z.to_nat i) then x else a_fv a k), ok V) else sfail a
+  | OGetFmin _ => if Nat.eqb (a_freqs a) 0 then sfail a else (a, okp V (PFreq (a_fv a 0)))
+  | OGetFmax _ => if Nat.eqb (a_freqs a) 0 then sfail a else (a, okp V (PFreq (a_fv a (a_freqs a - 1))))
+  | OGetFreqVec _ => (a, okp V (PFreqs (map (a_fv a) (seq 0 (a_freqs a)))))
+  | OSetFreqVec _ l =>
+      (with_fv a (fun k => if Nat.ltb k (a_freqs a) then nth k l 0%Z else a_fv a k), ok V)
+  | OGetCell _ f r c =>
+      if in_range f (a_freqs a) && in_range r (a_rows a) && in_range c (a_cols a)
+      then (a, okp V (PVal V (a_dat a (Z.to_nat f) (Z.to_nat r * a_cols a + Z.to_nat c)))) else sfail a
+  | OSetCell _ f r c v =>
+      if in_range f (a_freqs a) && in_range r (a_rows a) && in_range c (a_cols a)
+      then (with_dat a (fun i j => if Nat.eqb i (Z.to_nat f) && Nat.eqb j (Z.to_nat r * a_cols a + Z.to_nat c)
+                                   then v else a_dat a i j), ok V)
+      else sfail a
+  | OGetMatrix _ f =>
+      if in_range f (a_freqs a)
+      then (a, okp V (PVals V (map (a_dat a (Z.to_nat f)) (seq 0 (a_cells a))))) else sfail a
+  | OSetMatrix _ f l =>
+      if in_range f (a_freqs a)
+      then (with_dat a (fun i j => if Nat.eqb i (Z.to_nat f) && Nat.ltb j (a_cells a) then nth j l vzero
+                                   else a_dat a i j), ok V)
+      else sfail a
+  | OGetToVec _ r c =>
+      if in_range r (a_rows a) && in_range c (a_cols a)
+      then (a, okp V (PVals V (map (fun f => a_dat a f (Z.to_nat r * a_cols a + Z.to_nat c)) (seq 0 (a_freqs a)))))
+      else sfail a
+  | OSetFromVec _ r c l =>
+      if in_range r (a_rows a) && in_range c (a_cols a)
+      then (with_dat a (fun i j => if Nat.ltb i (a_freqs a) && Nat.eqb j (Z.to_nat r * a_cols a + Z.to_nat c)
+                                   then nth i l vzero else a_dat a i j), ok V)
+      else sfail a
+  | OGetZ0 _ p =>
+      if in_range p (a_ports a) && negb (a_perf a) then (a, okp V (PVal V (a_z0 a (Z.to_nat p)))) else sfail a
+  | OSetZ0 _ p v =>
+      if in_range p (a_ports a)
+      then (with_z0 a (fun k => if Nat.eqb k (Z.to_nat p) then v else z0_base a k), ok V) else sfail a
+  | OSetAllZ0 _ v => (spec_set_all_z0 a v, ok V)
+  | OGetZ0Vec _ => if a_perf a then sfail a else (a, okp V (PVals V (map (a_z0 a) (seq 0 (a_ports a)))))
+  | OSetZ0Vec _ l =>
+      (with_z0 a (fun p => if Nat.ltb p (a_ports a) then nth p l vzero else z0_base a p), ok V)
+  | OHasFz0 _ => (a, okp V (PBool (a_perf a)))
+  | OGetFz0 _ f p =>
+      if in_range f (a_freqs a) && in_range p (a_ports a)
+      then (a, okp V (PVal V (if a_perf a then a_fz0 a (Z.to_nat f) (Z.to_nat p) else a_z0 a (Z.to_nat p))))
+      else sfail a
+  | OSetFz0 _ f p v =>
+      if in_range f (a_freqs a) && in_range p (a_ports a)
+      then (with_fz0 a (fun i j => if Nat.eqb i (Z.to_nat f) && Nat.eqb j (Z.to_nat p) then v
+                                   else fz0_base a i j), ok V)
+      else sfail a
+  | OGetFz0Vec _ f =>
+      if in_range f (a_freqs a)
+      then (a, okp V (PVals V (map (if a_perf a then a_fz0 a (Z.to_nat f) else a_z0 a) (seq 0 (a_ports a)))))
+      else sfail a
+  | OSetFz0Vec _ f l =>
+      if in_range f (a_freqs a)
+      then (with_fz0 a (fun i j => if Nat.eqb i (Z.to_nat f) && Nat.ltb j (a_ports a) then nth j l vzero
+                                   else fz0_base a i j), ok V)
+      else sfail a
+  | OGetDims _ => (a, okp V (PDims (a_ty a) (a_rows a) (a_cols a) (a_freqs a)))
+  | OGetMeta _ => (a, okp V (PMeta (a_ftype a) (a_fmt a) (a_fprec a) (a_dprec a)))
+  | OSetFiletype _ k =>
+      if ((0 <=? k) && (k <=? 3))%Z then (with_meta a k (a_fmt a) (a_fprec a) (a_dprec a), ok V) else sfail a
+  | OSetFormat _ k => (with_meta a (a_ftype a) k (a_fprec a) (a_dprec a), ok V)
+  | OSetFprec _ p => if (p <? 1)%Z then sfail a else (with_meta a (a_ftype a) (a_fmt a) p (a_dprec a), ok V)
+  | OSetDprec _ p => if (p <? 1)%Z then sfail a else (with_meta a (a_ftype a) (a_fmt a) (a_fprec a) p, ok V)
+  end.
+
+(* outcomes of a whole history *)
+Fixpoint spec_trace (a : arr) (l : list (op V)) : list (outcome V) :=
+  match l with
+  | [] => []
+  | o :: r => snd (spec_step a o) :: spec_trace (fst (spec_step a o)) r
+  end.
 
 (* abstraction: forget the allocations *)
 Definition abs (d : vd V) : arr :=
-  mkarr (ty V d) (rows V d) (cols V d) (freqs V d) (per_f V d) (fv V d) (dat V d) (z0v V d) (z0vv V d).
+  mkarr (ty V d) (rows V d) (cols V d) (freqs V d) (per_f V d) (fv V d) (dat V d) (z0v V d) (z0vv V d)
+        (ftype V d) (fmt V d) (fprec V d) (dprec V d).
+
+(* the freshly allocated object *)
+Definition arr_alloc : arr :=
+  mkarr VUNDEF 0 0 0 false (fun _ => 0%Z) (fun _ _ => vzero) (fun _ => vdef) (fun _ _ => vdef) 0 None 7 6.
 
 End Spec.
